@@ -48,6 +48,76 @@ def _all_any_of(kind):
     return h
 
 
+def _std_equal(em, node, recv, args):
+    """std::equal(first1, last1, first2) over char pointers: a C loop (shim template, trusted)"""
+    it = em.ctype(args[0]["type"])
+    if it.base != "char" or it.ptr != 1:
+        raise ExtractionError("std::equal over %s not supported" % it.text())
+    name = "xc_equal_cc"
+    if name not in em.funcs:
+        from .emit import FuncOut
+        lc = em.contracts.get(name, {}).get("loops", {}).get(1, "")
+        pre = em.contracts.get(name, {}).get("pre", "")
+        fo = FuncOut(name, {"kind": "shim"})
+        fo.proto = "bool %s(const char *first1, const char *last1, const char *first2)" % name
+        fo.body = ("%s\n%s{\n  for (; first1 != last1; ++first1, ++first2)\n%s  {\n    if (!(*first1 == *first2))\n      return false;\n  }\n  return true;\n}\n"
+                   % (fo.proto, pre + ("\n" if pre and not pre.endswith("\n") else ""), (lc.rstrip() + "\n") if lc else ""))
+        fo.nloops = 1
+        fo.qual = "std::equal<const char*, const char*> (shim template, trusted)"
+        em.funcs[name] = fo
+        em.report["std::equal instantiated as a C loop"] += 1
+    return "%s(%s, %s, %s)" % (name, em.expr(args[0]), em.expr(args[1]), em.expr(args[2]))
+
+
+def _strlen(em, node, recv, args):
+    a = em._strip_all(args[0])
+    if a.get("kind") == "StringLiteral":
+        import ast as _ast
+        lit = a["value"]
+        try:
+            n = len(_ast.literal_eval(lit).encode("latin-1"))
+            if "\\0" not in lit and "\\x00" not in lit:
+                em.report["strlen of a string literal folded to a constant"] += 1
+                return "%dUL" % n
+        except Exception:
+            pass
+    return "xc_strlen(%s)" % em.expr(args[0])
+
+
+def _memcmp(em, node, recv, args):
+    n = _const_of(args[2], em)
+    if n is not None and 0 < n <= 64:
+        name = "xc_memcmp_%d" % n
+        if name not in em.shim_text:
+            body = "".join("  if (a[%d] != b[%d]) return a[%d] < b[%d] ? -1 : 1;\n" % (i, i, i, i) for i in range(n))
+            em.shim_text[name] = ("/* memcmp with constant size %d, unrolled (C standard semantics: unsigned char comparison) */\n"
+                                  "static int %s(const void *pa, const void *pb)\n{\n  const unsigned char *a = pa, *b = pb;\n%s  return 0;\n}\n"
+                                  % (n, name, body))
+            em.report["memcmp with constant size unrolled"] += 1
+        return "%s(%s, %s)" % (name, em.expr(args[0]), em.expr(args[1]))
+    return "memcmp(%s, %s, %s)" % tuple(em.expr(a) for a in args)
+
+
+def _const_of(n, em=None):
+    from .cxxast import _const_value
+    k = n.get("kind")
+    if k in ("ImplicitCastExpr", "ParenExpr", "CStyleCastExpr", "CXXStaticCastExpr", "CXXFunctionalCastExpr", "ConstantExpr"):
+        return _const_of(n["inner"][0], em)
+    if k == "IntegerLiteral":
+        return int(n["value"])
+    if k == "DeclRefExpr" and em is not None:
+        d = em.ix.by_id.get(n["referencedDecl"]["id"])
+        if d is not None and d.get("kind") == "VarDecl" and (d.get("constexpr") or d["type"].get("qualType", "").startswith("const ")):
+            init = [c for c in d.get("inner", []) if isinstance(c, dict) and c.get("kind") and not c["kind"].endswith("Attr")]
+            if init:
+                v = _const_value(init[0])
+                return v
+        return None
+    if k == "UnaryExprOrTypeTraitExpr":
+        return None
+    return None
+
+
 def _passthrough(cname):
     return cname
 
@@ -57,6 +127,14 @@ def _std_array(em, base, targs, name):
         inner = em._ctype(targs[0])
         return CT(inner.base, inner.ptr, inner.dims + (targs[1],))
     return None
+
+
+def _str_ctor(em, node, args):
+    if len(args) == 1:
+        t = em.ctype(args[0]["type"])
+        if t.base == "xc_str":
+            return em.expr(args[0])
+    raise ExtractionError("std::string construction with %d args not supported here" % len(args))
 
 
 def default_config():
@@ -70,11 +148,23 @@ def default_config():
     cfg.ext["max"] = _minmax("max")
     cfg.ext["all_of"] = _all_any_of("all_of")
     cfg.ext["any_of"] = _all_any_of("any_of")
+    cfg.ext["equal"] = _std_equal
+    cfg.ext["strlen"] = _strlen
+    cfg.ext["memcmp"] = _memcmp
     cfg.ext["terminate"] = lambda em, node, recv, args: "XC_THROW()"
     cfg.ext["__assert_fail"] = lambda em, node, recv, args: "xc_assert_fail()"
     cfg.ext["move"] = lambda em, node, recv, args: em.expr(args[0])
     cfg.ext["forward"] = lambda em, node, recv, args: em.expr(args[0])
     cfg.type_handlers.append(_std_array)
+    for n in ("std::string", "std::basic_string<char>", "std::basic_string", "std::__cxx11::basic_string"):
+        cfg.type_map[n] = "xc_str"
+    for n in ("std::basic_string", "std::__cxx11::basic_string"):
+        cfg.ext_methods[n + "::empty"] = lambda em, recv, args, n: "(%s.len == 0)" % recv
+        cfg.ext_methods[n + "::size"] = lambda em, recv, args, n: "%s.len" % recv
+        cfg.ext_methods[n + "::length"] = lambda em, recv, args, n: "%s.len" % recv
+        cfg.ext_methods[n + "::c_str"] = lambda em, recv, args, n: "%s.data" % recv
+        cfg.ext_methods[n + "::data"] = lambda em, recv, args, n: "%s.data" % recv
+        cfg.ctor_ext[n] = _str_ctor
     cfg.ext_methods["std::array::data"] = lambda em, recv, args, n: recv
     cfg.ext_methods["std::array::operator[]"] = lambda em, recv, args, n: "%s[%s]" % (recv, em.expr(args[0]))
     cfg.ext_methods["std::array::size"] = lambda em, recv, args, n: "(sizeof(%s)/sizeof(%s[0]))" % (recv, recv)
